@@ -37,6 +37,20 @@ func genWindow(r *Rand, L int) (int, int) {
 	if r.P(0.1) {
 		e = s
 	}
+	if r.P(0.08) {
+		s, e = 1, L // the whole reference: still a window (insertion columns outside it are cut)
+	}
+	return s, e
+}
+
+// oneBound leaves one of the two bounds unset (-1) a third of the time each
+func oneBound(r *Rand, s, e int) (int, int) {
+	switch r.Intn(3) {
+	case 0:
+		return s, -1
+	case 1:
+		return -1, e
+	}
 	return s, e
 }
 
@@ -51,6 +65,7 @@ func genC15(r *Rand, tier string, ord int) *Trial {
 		t.Case.Opts = Opts{Wrap: -1, Start: -1, End: -1, Pad: r.P(0.4), Threads: 1}
 		if kind == "toma-window" {
 			s, e := genWindow(r, L)
+			s, e = oneBound(r, s, e)
 			t.Params["s"], t.Params["e"] = strconv.Itoa(s), strconv.Itoa(e)
 		} else {
 			t.Params["w"] = strconv.Itoa(r.PickInt(1, 2, 3, 5, 7, L-1, L, L+1, 60))
@@ -82,11 +97,12 @@ func genC15(r *Rand, tier string, ord int) *Trial {
 		t.Params["form"] = form
 	case "topa-window", "topa-wrap":
 		L := r.Range(4, 40)
-		sc := genSam(r, samSpec{L: L, Queries: r.Range(1, 6), MaxRecs: 1, Ins: 0.08, Del: 0.05, Skip: 0.03, Junk: 0.1, Clip: 0.2, InsDisjoint: true})
+		sc := genSam(r, samSpec{L: L, Queries: r.Range(1, 6), MaxRecs: 1, Ins: 0.08, Del: 0.05, Skip: 0.03, Junk: 0.1, Clip: 0.2, InsDisjoint: true, EdgeIns: 0.15})
 		t.Case = Case{Cmd: "topa", Files: map[string]string{"sam": sc.Text(), "ref": ">ref\n" + sc.RefSeq + "\n"}}
 		t.Case.Opts = Opts{Wrap: -1, Start: -1, End: -1, OutDir: r.Pick("stdout", "outdir"), OmitRef: r.P(0.3), OmitIns: r.P(0.3), Threads: 1}
 		if kind == "topa-window" {
 			s, e := genWindow(r, L)
+			s, e = oneBound(r, s, e)
 			t.Params["s"], t.Params["e"] = strconv.Itoa(s), strconv.Itoa(e)
 			t.Case.Opts.OmitRef = false // the cut is defined through the reference row
 		} else {
@@ -217,6 +233,12 @@ func checkC15(t *Trial, ctx *Ctx) *Failure {
 			return fail("window", "different number of records", res)
 		}
 		for i := range want {
+			if s < 0 { // a bound that is not given is the end of the reference
+				s = 1
+			}
+			if e < 0 {
+				e = len(want[i].seq)
+			}
 			exp := want[i].seq[s-1 : e]
 			if t.Case.Opts.Pad {
 				x := []byte(want[i].seq)
@@ -278,6 +300,13 @@ func checkC15(t *Trial, ctx *Ctx) *Failure {
 				ref, q := recs[i].seq, recs[i+1].seq
 				// columns of reference base s and reference base e
 				cs, ce, nb := -1, -1, 0
+				s, e := s, e
+				if s < 0 {
+					s = 1
+				}
+				if e < 0 {
+					e = len(ref) - strings.Count(ref, "-")
+				}
 				for j := 0; j < len(ref); j++ {
 					if ref[j] != '-' {
 						nb++
